@@ -129,8 +129,12 @@ def parse_template(path: str):
                 elif t.startswith("//@ loop "):
                     n = int(t.split()[2])
                     blk["loops"][n], i = multiline(i)
-                elif t.startswith("//@ before `") or t.startswith("//@ after `") or t.startswith("//@ afterall `") or t.startswith("//@ beforeall `"):
-                    m = re.match(r"//@ (before|after|afterall|beforeall) `(.*)` <<", t)
+                elif re.match(r"//@ (before|after|afterall|beforeall)(#\d+)? `", t):
+                    m0 = re.match(r"//@ (before|after|afterall|beforeall)(#\d+)? `(.*)` <<", t)
+                    class _M:  # keep the (where, anchor) shape; an occurrence ordinal rides on `where`
+                        def __init__(self, a, b): self.a, self.b = a, b
+                        def group(self, k): return self.a if k == 1 else self.b
+                    m = _M(m0.group(1) + (m0.group(2) or ""), m0.group(3))
                     body, i = multiline(i)
                     blk["inserts"].append((m.group(1), m.group(2), body))
                 elif t.startswith("//@ afterloop "):
@@ -300,9 +304,17 @@ def build_item(repo: str, blk: dict, report: dict):
             close = match_brace(bmask, loops[anchor][1])
             ins.append((close, "\n" + txt + "\n", "proof"))
             continue
-        k = body.find(anchor)
+        nth = 1
+        if "#" in where:
+            where, nn = where.split("#")
+            nth = int(nn)
+        k = -1
+        for _ in range(nth):
+            k = body.find(anchor, k + 1)
+            if k < 0:
+                break
         if k < 0:
-            raise LostAnchor(f"{key}: anchor `{anchor}` not found")
+            raise LostAnchor(f"{key}: anchor `{anchor}` (occurrence {nth}) not found")
         ks = [k]
         if where.endswith("all"):
             while True:
